@@ -59,7 +59,7 @@ def run(tier="quick", seed=0):
         del sent[:]
         path = None if image_len is None else image_file(image_len)
         image = real_image if image_len is None else open(path, "rb").read()
-        if via_dict == "controller":
+        if via_dict in ("controller", "controller_dict"):
             # through MachineController.boot(), which forwards its keyword arguments to boot()
             import warnings
             with warnings.catch_warnings():
@@ -68,7 +68,10 @@ def run(tier="quick", seed=0):
             mc = MachineController(host)
             del sent[:]         # (the controller's own SCP socket is made from the same recording class)
             try:
-                mc.boot(only_if_needed=False, check_booted=False, scamp_binary=path, boot_delay=0, post_boot_delay=0, **kwargs)
+                if via_dict == "controller_dict":      # the documented sv_overrides dictionary, handed to the controller
+                    mc.boot(only_if_needed=False, check_booted=False, scamp_binary=path, boot_delay=0, post_boot_delay=0, sv_overrides=dict(kwargs))
+                else:
+                    mc.boot(only_if_needed=False, check_booted=False, scamp_binary=path, boot_delay=0, post_boot_delay=0, **kwargs)
                 structs = mc.structs
             finally:
                 for c in list(mc.connections.values()):
@@ -137,6 +140,24 @@ def run(tier="quick", seed=0):
                     if why and len(viol) < 6:
                         viol.append({"id": "boot_%d" % ev, "clause": "single_boot", "why": why,
                                      "inputs": {"image_len": sz, "options": opts, "via_sv_overrides": via}})
+        # (a') every decodable system variable of the configuration area on its own (default + 1), named in the sv_overrides
+        #      dictionary of boot() and of MachineController.boot() - the only way to name a variable that is spelt like a
+        #      parameter of boot() itself (boot_delay)
+        for name, (pk, off, default) in sorted(fields.items()):
+            if pk not in PK or off + struct.calcsize(PK[pk]) > 128 or name.decode() in ("unix_time", "boot_sig", "root_chip"):
+                continue
+            size = struct.calcsize(PK[pk])
+            v = (default + 1) & ((1 << (8 * size - (1 if pk == b"c" else 0))) - 1)
+            for via in (True, "controller_dict"):
+                ev += 1
+                try:
+                    why = one_boot("localhost", 1028, {name.decode(): v}, via)
+                except Exception as e:      # noqa
+                    why = "%s: %s" % (type(e).__name__, e)
+                distinct.add(("single", name, via))
+                if why and len(viol) < 6:
+                    viol.append({"id": "boot_%d" % ev, "clause": "single_boot", "why": why,
+                                 "inputs": {"image_len": 1028, "options": {name.decode(): v}, "via_sv_overrides": via}})
         # (b) histories: options of one boot must not appear in the next
         for first in presets[1:]:
             for second in ({}, dict(B.spin5_boot_options)):
@@ -156,6 +177,6 @@ def run(tier="quick", seed=0):
             os.unlink(os.path.join(tmpdir, f))
         os.rmdir(tmpdir)
     return {"name": "c20_boot", "evaluations": ev, "distinct_nontrivial": len(distinct),
-            "rule": "real boot() over a recording socket and frozen clock: image lengths %s (None = the bundled scamp.boot) x 4 option sets x options passed as keywords / as sv_overrides / as keywords of MachineController.boot (three image lengths); two-boot histories (3 first option sets x 2 second x 4 ways of passing); checks connect, start(n-1), blocks 0..n-1 with a1=(255<<8)|k and <= 1 KiB, end(1), un-swapped concatenation == image outside bytes 384..511, every decodable system variable in the configuration area == this call's option else the struct file's default, returned structs pack to the area sent" % (sizes,),
+            "rule": "real boot() over a recording socket and frozen clock: image lengths %s (None = the bundled scamp.boot) x 4 option sets x options passed as keywords / as sv_overrides / as keywords of MachineController.boot (three image lengths); every decodable system variable of the configuration area on its own (default + 1) in the sv_overrides dictionary of boot() and of MachineController.boot(); two-boot histories (3 first option sets x 2 second x 4 ways of passing); checks connect, start(n-1), blocks 0..n-1 with a1=(255<<8)|k and <= 1 KiB, end(1), un-swapped concatenation == image outside bytes 384..511, every decodable system variable in the configuration area == this call's option else the struct file's default, returned structs pack to the area sent" % (sizes,),
             "bound": "listed sizes, option sets and two-boot histories", "exhaustive": False, "label": "bounded",
             "samples": samples, "violations": viol, "seconds": round(_time.time() - t0, 2)}
